@@ -217,8 +217,10 @@ class ListingToTokenizedBasicConverter:
         if match is None:
             raise ValueError(f"No line number in this line : '{line}'")
         lineNumber = int(match.group(1))
-        line = line[len(match.group(1)) : -1]
-        if line[0] == " ":
+        line = line[len(match.group(1)) :]
+        if line.endswith("\n"):
+            line = line[:-1]
+        if line.startswith(" "):
             line = line[1:]
 
         return (lineNumber, line)
